@@ -140,3 +140,10 @@ TEXT["C17"] = {
     "note": "trusts the harness program generator and its CMR model (ast.rs)",
     "technique": "round-trip monitor over generated programs and source texts; crash / panic / hang monitor over arbitrary and deeply nested strings",
 }
+TEXT["C20"] = {
+    "level": ("Thousands of rounds in which up to 16 threads repeat every library operation on shared and private objects and each result is compared with the one-at-a-time result, "
+              "repeated under ThreadSanitizer and AddressSanitizer with the C code instrumented; decides only the interleavings the scheduler produced (overlap counts in the evidence)."),
+    "design_ref": "DESIGN.md section 5, C20",
+    "note": "race detection is limited to memory accesses ThreadSanitizer instruments (Rust std rebuilt with -Zbuild-std, C compiled with -fsanitize=thread)",
+    "technique": "differential monitor (concurrent vs sequential results) over a multi-threaded stress workload with an overlap event log; ThreadSanitizer and AddressSanitizer passes",
+}
